@@ -317,3 +317,76 @@ func genNested(r *hx.Rng) *nspec {
 	}
 	return s
 }
+
+// ---- Coq case of a nested-repository run ------------------------------------------
+
+// coqNCase: the run as input of the model (Out/C15Obs.v run_c15n): repositories with their
+// `paths` sections (glob ids are global: outer 0.., inner 100..), regexp answers as message-id
+// lists, doublestar answers for every path string the model may ask about.
+func (l *layout) coqNCase(s *nspec, base map[nfile][]ndiag, msgs []string, got []ndiag, status int) string {
+	mid := func(m string) int {
+		for i, x := range msgs {
+			if x == m {
+				return i
+			}
+		}
+		return 9998
+	}
+	cwd := l.cwd(s.CwdKind)
+	args := l.nargs(s)
+	fileArgs := args[len(args)-len(s.Files):]
+	var fruns []string
+	var cands []string
+	for i, f := range s.Files {
+		var es []string
+		for _, d := range base[f] {
+			es = append(es, fmt.Sprintf("(%s,%s,%s)", hx.CoqN(d.Line), hx.CoqN(d.Col), hx.CoqN(mid(d.Msg))))
+		}
+		fruns = append(fruns, fmt.Sprintf("mkFrun %s %s", hx.CoqStr(fileArgs[i]), hx.CoqList(es)))
+		abs := l.nabs(f)
+		for _, root := range []string{l.root, l.innerRoot(), cwd} {
+			if r, err := filepath.Rel(root, abs); err == nil {
+				cands = append(cands, filepath.ToSlash(r))
+			}
+		}
+		cands = append(cands, abs, fileArgs[i], f.Rel)
+	}
+	var glob []string
+	seen := map[string]bool{}
+	section := func(paths []pathsEntry, has bool, off int) string {
+		if !has {
+			return "None"
+		}
+		var es []string
+		for gi, pe := range paths {
+			var pats []string
+			for _, p := range pe.Ignore {
+				pats = append(pats, coqNList(matchIDs(p, msgs)))
+			}
+			es = append(es, fmt.Sprintf("(%s, %s)", hx.CoqN(off+gi), hx.CoqList(pats)))
+			for _, c := range cands {
+				k := fmt.Sprintf("%d\x00%s", off+gi, c)
+				if seen[k] {
+					continue
+				}
+				seen[k] = true
+				glob = append(glob, fmt.Sprintf("(%s, %s, %s)", hx.CoqN(off+gi), hx.CoqStr(c), hx.CoqBool(doublestar.MatchUnvalidated(pe.Glob, c))))
+			}
+		}
+		return "(Some " + hx.CoqList(es) + ")"
+	}
+	repos := []string{
+		fmt.Sprintf("(%s, %s)", hx.CoqStr(l.root), section(s.Outer, s.OuterCfg, 0)),
+		fmt.Sprintf("(%s, %s)", hx.CoqStr(l.innerRoot()), section(s.Inner, s.InnerCfg, 100)),
+	}
+	var cli []string
+	for _, p := range s.CLI {
+		cli = append(cli, coqNList(matchIDs(p, msgs)))
+	}
+	var obs []string
+	for _, d := range got {
+		obs = append(obs, coqNList([]int{d.File, d.Line, d.Col, mid(d.Msg)}))
+	}
+	obs = append(obs, coqNList([]int{1000, status}))
+	return fmt.Sprintf("(mkNIn %s %s %s %s %s, %s)", hx.CoqStr(cwd), hx.CoqList(repos), hx.CoqList(fruns), hx.CoqList(cli), hx.CoqList(glob), hx.CoqList(obs))
+}
